@@ -157,7 +157,9 @@ def render (A : Arith) (fmt : Fmt) (x : Rat) : Outcome Str :=
     match sexaBase frac with
     | none => .assertionError
     | some base =>
-      let total := (rhe (A.fl (ratAbs x * base))).toNat
+      -- `round(Fraction(abs(n)) * base)`: exact, no floating point involved
+      let _ := A
+      let total := (rhe (ratAbs x * base)).toNat
       .ok ((if x < 0 then ['-'] else []) ++ sexaFields frac base total)
   | .f fl width prec =>
     let scaled := (rhe (ratAbs x * (10 : Rat) ^ prec)).toNat
